@@ -8,11 +8,14 @@ use bump_scope::{BaseAllocator, Bump};
 
 /// history: new -> two symbolic allocations that may create chunks 2 and 3 (symbolic failure mask over the base
 /// calls) -> END in {drop, reset + drop, reset_to_start + drop, scope exit + drop, into_raw/from_raw + drop}
-fn release_body<A, St: BumpAllocatorSettings, const END: u8>(max_chunks: usize)
+fn release_body<A, St: BumpAllocatorSettings, const END: u8, const L1: usize, const FORCE: bool>(max_chunks: usize)
 where
     A: BaseAllocator<St::GuaranteedAllocated> + Default,
 {
-    unsafe { FAIL_MASK = kani::any() };
+    // the symbolic failure mask is part of the upward harnesses only (downward it exceeds 17 GB)
+    if St::UP {
+        unsafe { FAIL_MASK = kani::any() };
+    }
     set_budget(1);
     let Ok(mut bump) = Bump::<A, St>::try_new() else {
         assert!(grants() == 0, "C05: a failed constructor left a grant behind");
@@ -20,7 +23,9 @@ where
     };
     set_budget(0);
     // one allocation per possible extra chunk; sizes symbolic so that the solver decides whether a chunk is needed
-    let l1 = any_layout(24, 4);
+    // FORCE: a concrete request that cannot fit in the first chunk (downward / big-header shapes: a symbolic
+    // "may or may not need a chunk" exceeds 19 GB there); otherwise the solver decides whether chunk 2 is needed
+    let l1 = if FORCE { core::alloc::Layout::from_size_align(L1, 1).unwrap() } else { any_layout(L1, 4) };
     set_budget(1);
     let r1 = bump.allocate(l1);
     set_budget(0);
@@ -36,8 +41,8 @@ where
         }
     }
     let n = bump.stats().count();
-    kani::cover!(n == 1, "one chunk");
-    kani::cover!(n == 2, "two chunks");
+    kani::cover!(n == 1, "[c1] one chunk");
+    kani::cover!(n == 2, "[c2] two chunks");
     kani::cover!(n == 3, "[c3] three chunks");
     assert!(live_grants() == n && grants() == n, "C05: chunks and live grants differ");
     let biggest = {
@@ -77,32 +82,32 @@ where
     drop(bump);
     assert!(live_grants() == 0, "C05: a chunk was not returned to the base allocator when the Bump was dropped");
     assert!(released() == grants(), "C05: number of releases differs from the number of grants");
-    kani::cover!(remaining >= 2, "dropped an arena with several chunks");
+    kani::cover!(remaining >= 2, "[several] dropped an arena with several chunks");
     kani::cover!(true, "END: harness ran to completion");
 }
 
 macro_rules! release_harness {
-    ($name:ident, $A:ty, $S:ty, $end:literal, $chunks:expr) => {
+    ($name:ident, $A:ty, $S:ty, $end:literal, $chunks:expr, $l1:literal, $force:literal) => {
         #[kani::proof]
         #[kani::unwind(7)]
         #[kani::stub(std::alloc::handle_alloc_error, crate::stubs::hae_stub)]
         fn $name() {
-            release_body::<$A, $S, $end>($chunks);
+            release_body::<$A, $S, $end, $l1, $force>($chunks);
         }
     };
 }
-release_harness!(release_drop_up1_c3, VA<0>, S<1, true>, 0, 3);
-release_harness!(release_reset_up1_c3, VA<0>, S<1, true>, 1, 3);
-release_harness!(release_reset_to_start_up1_c2, VA<0>, S<1, true>, 2, 2);
-release_harness!(release_scope_up1_c2, VA<0>, S<1, true>, 3, 2);
-release_harness!(release_raw_up1_c2, VA<0>, S<1, true>, 4, 2);
-release_harness!(release_drop_down1_c2, VA<0>, S<1, false>, 0, 2);
-release_harness!(release_reset_down1_c2, VA<0>, S<1, false>, 1, 2);
-release_harness!(release_drop_up1_extra8_c2, VA<8>, S<1, true>, 0, 2);
-release_harness!(release_reset_down1_extra24_c2, VA<24>, S<1, false>, 1, 2);
-release_harness!(release_drop_over_up1_c2, VAOver, S<1, true>, 0, 2);
-release_harness!(release_reset_over_down1_c2, VAOver, S<1, false>, 1, 2);
-release_harness!(release_drop_stateful_down1_c2, VAStateful, S<1, false>, 0, 2);
+release_harness!(release_drop_up1_c3, VA<0>, S<1, true>, 0, 3, 24, false);
+release_harness!(release_reset_up1_c3, VA<0>, S<1, true>, 1, 3, 24, false);
+release_harness!(release_reset_to_start_up1_c2, VA<0>, S<1, true>, 2, 2, 24, false);
+release_harness!(release_scope_up1_c2, VA<0>, S<1, true>, 3, 2, 24, false);
+release_harness!(release_raw_up1_c2, VA<0>, S<1, true>, 4, 2, 24, false);
+release_harness!(release_drop_down1_c2, VA<0>, S<1, false>, 0, 2, 24, true);
+release_harness!(release_reset_down1_c2, VA<0>, S<1, false>, 1, 2, 24, true);
+release_harness!(release_drop_up1_extra8_c2, VA<8>, S<1, true>, 0, 2, 24, false);
+release_harness!(release_reset_down1_extra24_c2, VA<24>, S<1, false>, 1, 2, 24, true);
+release_harness!(release_drop_over_up1_c2, VAOver, S<1, true>, 0, 2, 64, true);
+release_harness!(release_reset_over_down1_c2, VAOver, S<1, false>, 1, 2, 64, true);
+release_harness!(release_drop_stateful_down1_c2, VAStateful, S<1, false>, 0, 2, 16, true);
 
 /// a Bump that was never used in unallocated mode never calls the base allocator
 #[kani::proof]
